@@ -42,9 +42,9 @@ impl AnyReader<'_> {
 fn framed_prefixes(g: &mut Gen, st: &mut Stats) -> CaseResult {
     st.eval();
     let n = 2 + g.below(5);
-    let vals: Vec<Val> = (0 .. n).map(|_| if g.chance(35) { Val::any(g) } else { Val::small(g) }).collect();
+    let vals: Vec<Val> = (0 .. n).map(|_| if g.chance(90) { Val::any(g) } else { Val::small(g) }).collect();
     // None = complete frame, Some(cut) = only the first `cut` payload bytes are framed
-    let cuts: Vec<Option<usize>> = vals.iter().map(|v| { let l = v.encoded().len(); if g.chance(45) { Some(match g.below(4) { 0 => 0, 1 => l - 1, _ => g.below(l) }) } else { None } }).collect();
+    let cuts: Vec<Option<usize>> = vals.iter().map(|v| { let l = v.encoded().len(); if g.chance(115) { Some(match g.below(4) { 0 => 0, 1 => l - 1, _ => g.below(l) }) } else { None } }).collect();
     let mut stream = Vec::new();
     for (v, c) in vals.iter().zip(&cuts) {
         let e = v.encoded();
